@@ -319,6 +319,32 @@ def gen_docx_paragraphs():
             for nm in combo:
                 runs.extend(it[nm]())
             yield "+".join(combo), wp(*runs)
+    # directed: the excluded run-level constructs (source of a tracked move, tracked deletion) nested in every run-level
+    # container the recursive walk descends into, alone / after a plain run / between two plain runs / two levels deep.
+    # Name `<construct>@<container>`: the case is the one of the construct.
+    containers = {
+        "hyperlink": lambda *k: N(W + "hyperlink", *k),
+        "sdt": lambda *k: N(W + "sdt", N(W + "sdtPr"), N(W + "sdtContent", *k)),
+        "smartTag": lambda *k: N(W + "smartTag", *k),
+        "customXml": lambda *k: N(W + "customXml", *k),
+        "fldSimple": lambda *k: N(W + "fldSimple", *k),
+        "ins": lambda *k: N(W + "ins", *k),
+    }
+    excluded = {
+        "moveFrom": lambda tk: N(W + "moveFrom", wr(wt(tk.x("DEL")))),
+        "del": lambda tk: N(W + "del", wr(N(W + "delText", text=tk.x("DEL")))),
+    }
+    for xn, xf in excluded.items():
+        for cn, cf in containers.items():
+            tk = Tok()
+            yield f"{xn}@{cn}", wp(cf(xf(tk)))
+            tk = Tok()
+            yield f"t+{xn}@{cn}", wp(wr(wt(tk.v())), cf(wr(wt(tk.v())), xf(tk), wr(wt(tk.v()))))
+            tk = Tok()
+            yield f"t+{xn}@{cn}+t", wp(wr(wt(tk.v())), cf(xf(tk)), wr(wt(tk.v())))
+            for cn2, cf2 in containers.items():
+                tk = Tok()
+                yield f"{xn}@{cn2}@{cn}", wp(cf(wr(wt(tk.v())), cf2(xf(tk), wr(wt(tk.v())))))
 
 
 def gen_docx_tables():
